@@ -894,10 +894,15 @@ func (c *control) dirInt(colon, at bool, params []any, base int) {
 		colon = false
 		p := *slip.DefaultPrinter()
 		p.ScopedUpdate(c.scope)
-		p.Escape = true
-		p.Readably = true
+		// A non-integer is output as if by the Aesthetic directive.
+		p.Escape = false
+		p.Readably = false
 		p.Base = 10
-		out = p.Append(nil, ta, 0)
+		if ss, ok := ta.(slip.String); ok {
+			out = []byte(ss)
+		} else {
+			out = p.Append(nil, ta, 0)
+		}
 	}
 	if at && !neg {
 		out = append([]byte{'+'}, out...)
